@@ -75,6 +75,17 @@ int run_memusage(const Args& a) {
                 }
             }
         }
+        if (r.chance(1, 3) && !model.empty()) {
+            // inline-dense: every value of the tree (any shape) becomes an inline pointer value, so whole nodes hold
+            // nothing but entries with no allocated block (used must still not exceed reserved)
+            uintptr_t n = 0;
+            for (auto& [k, v] : model) {
+                void* pv = reinterpret_cast<void*>(0x2000 + (n++) * 8); // NOLINT
+                if (yk::put<void*>(ses.tok, storage, k, &pv) == status::OK) { v = std::string(reinterpret_cast<char*>(&pv), 8); } // NOLINT
+            }
+            has_inline = true;
+            rep.count("inline_dense_trees");
+        }
         rep.count("trees");
         for (uint64_t s = 0; s < snaps; ++s) {
             Walker w(true);
